@@ -20,6 +20,7 @@ RULE = ("cases are trees built through the public API (random shapes up to 60/40
         ". Also: the same objects saved again after in-place edits, the same text loaded again after every dictionary of the first load was written into, qualified attributes as real documents carry them, id strings repeated on a path")
 ASSUMPTIONS = [
     "precondition re-checked per tree: every node's namespace prefixes include its parent's; attribute/extras values are strings",
+    "trees holding a namespace-map key that is not a string (the None key of a default namespace) are skipped: it has no spelling as a JSON member name",
     "loading a document re-uses the ids it carries, so the registry entries of the original tree are taken over by the reloaded one",
     "known finding nsmap-member-order-only: a reloaded child whose map equals its parent's adopts the parent's key order; accepted only "
     "when both texts parse to equal objects and every difference is the member order of an 'nsmap' object",
